@@ -20,7 +20,7 @@ RULE = ("(a) exhaustive: every flow grid of shape 1x1,1x2,2x1,1x3,3x1,2x2 "
         "independent Python graph model built from the literal ESRI code "
         "table: downstream/upstream relations, area = outlet + cells whose "
         "walk reaches the outlet with no inlet on the way, filled area "
-        "superset, flow path end/length, river cells/dist/dx/dy/x/y. Outlets "
+        "superset and = area + enclosed holes, flow path end/length, river cells/dist/dx/dy/x/y. Outlets "
         "on a flow cycle: only 'returns or raises ValueError'. Non-trivial = "
         "area >= 3 cells, or an inlet on a chain to the outlet, or <= 2 "
         "columns, or a diagonal step.")
@@ -97,6 +97,19 @@ def check_area(ca, fd, down, outlet, inlets, labels):
                         f"area {sorted(a)}")
     if any(x < 0 or x >= n for x in filled):
         raise Violation(f"filled area outside grid: {sorted(filled)}")
+    if a:
+        # validity predicate for the hole filling: every true hole (not
+        # reachable from outside even with diagonal moves) is filled, and
+        # nothing is filled that can be reached with orthogonal moves
+        must = set(a) | G.holes(nr, nc, a, diagonal=True)
+        may = set(a) | G.holes(nr, nc, a, diagonal=False)
+        if not (must <= filled <= may):
+            raise Violation(
+                f"filled area {sorted(filled)} is not area + holes: must "
+                f"contain {sorted(must)}, may contain {sorted(may)}; area "
+                f"{sorted(a)} on a {nr}x{nc} grid")
+        if len(may) > len(a):
+            labels.add("area-with-hole")
     nt = len(a) >= 3 or nc <= 2
     if a:
         ca.compute_flowpathlengths()
